@@ -523,5 +523,5 @@ def finish(ctx, report):
     report.require("iface-mesh", 100, "direct_model.get_mesh per-parameter distributions")
     report.require("iface-orientation", 20, "absolute-width (orientation) parameters through get_mesh")
     report.require("iface-sasview", 100, "SasView-style setParam sequences")
-    report.require("threads", 8, "two concurrent requests under the thread scheduler")
+    report.require("threads", 7, "two concurrent requests under the thread scheduler")
     report.require("iface-cross", 4, "same-named parameters with different limits in two models")
